@@ -8,7 +8,7 @@ id=$1; wt=$2
 for pf in $wt/_seed/r*.patch; do
   [ -s "$pf" ] || continue
   n=$(basename $pf .patch)
-  out=/verif/refactors/$id-$n; mkdir -p $out; cp $pf $out/patch.diff
+  out=/verif/refactors/${PFX:-}$id-$n; mkdir -p $out; cp $pf $out/patch.diff
   python3 - "$wt/_seed/refactors.json" "$n.patch" "$out/meta.json" <<'PY'
 import json,sys
 try:
